@@ -1,17 +1,49 @@
 #!/usr/bin/env python3
 """Regenerates /verif/MANIFEST.json from the table below (single source of truth for the interface)."""
 import json, os, sys
-sys.path.insert(0, os.path.dirname(os.path.dirname(os.path.abspath(__file__))))
+HERE = os.path.dirname(os.path.abspath(__file__))
+
+TB = ("Trusted: TLC and its Json/IOUtils modules, BigInt.tla (self-checked by MCBigInt), the JDK SHA-256 behind Prim!SHA256, "
+      "the harness's JSON projection of values. ")
+RUNNOTE = (TB + "Bounded by generated inputs (not a proof); cryptographic operator results are recorded witnesses; runs above the "
+           "evaluation caps of Ops.tla (bignum operands) are abstained and counted.")
+
+def run_text(what):
+    return ("Interp.tla is the run_program machine (three stacks, guards, budget, as-if allocator counters) over Ops.tla (every "
+            "non-cryptographic operator with both cost models, reproducing all pinned op-tests vectors). The harness records runs of "
+            "generated programs under the configurations the property relates; TLC (TraceRun.tla) re-executes the machine on every "
+            "recorded run, one state per machine step, and decides " + what + ".")
 
 # property -> (engine, technique, level text, level note, design ref)
 CLAIMED = {
+    "C01": ("run", "TLC trace validation: Interp.tla machine re-executed on recorded runs",
+            run_text("that result, cost and failure of every recorded default-flag classic-operator run equal the specification's"),
+            RUNNOTE + " The historical Python clvm package is not installed: the reference is the TLA+ transcription (DESIGN.md C01).", "5 C01"),
+    "C19": ("incremental", "TLC model checking of add/undo histories + replay into Serializer + TLC trace validation",
+            "Incremental.tla specifies add/undo histories, the assembled tree, a self-contained back-reference decoder and the three "
+            "clauses; MCIncremental enumerates all histories at small scope and each is replayed into the real Serializer; recorded "
+            "random histories are validated by TraceIncremental, which also classifies failing histories (classes F6a/F6b/F6c are "
+            "known findings, computed by TLC from the history); IncrementalMech.tla models the shadow tree and derives those "
+            "histories from the design.",
+            TB + "Known findings mask other defects only inside their input classes.", "5 C19"),
+    "C20": ("serde2026", "TLC model checking of decoder/probe/serializer machines + case replay + TLC trace validation",
+            "Ser2026.tla transcribes the 2026 decoder, length probe and serializer as machines plus declarative definitions; "
+            "MCSer2026 checks round trip, probe = consumed, strict subset of lenient and rejection of the magic prefix by the classic "
+            "size rule over all small trees and structured byte strings and emits every case for replay; recorded ser/de/len/magic "
+            "events are validated by TraceSer2026.", TB + "Allocator limits inside the decoder are not modelled.", "5 C20"),
     "C21": ("varint", "TLC model checking of Varint.tla + spec->impl case replay + TLC trace validation of recorded calls",
             "The varint codec is specified in TLA+ (Varint.tla over BigInt.tla); TLC checks the bijection/minimality laws on every "
             "encoding of <=2 bytes, boundary-structured encodings up to 9 bytes and all width-boundary values, emits the expected "
             "result of each as a case that is replayed into read_varint/write_varint, and validates recorded random calls line by "
             "line (TraceVarint). An exhaustive <=3 (quick) / <=4 (thorough) byte sweep of the implementation checks the laws.",
-            "Trusted: TLC, the BigInt module (self-checked by MCBigInt), the harness's JSON projection. Values outside 56 bits are outside the format.",
-            "DESIGN.md section 5 C21"),
+            TB + "Values outside 56 bits are outside the format.", "5 C21"),
+    "C22": ("hash", "TLC model checking of the hashing machines + case replay + TLC trace validation (SHA-256 via the one override)",
+            "TreeHash.tla defines TH recursively and transcribes tree_hash_costed, tree_hash_from_stream and parse_triples as "
+            "machines; MCHash runs them in lockstep on all small trees/DAGs (every machine = TH) and emits cases; recorded hash "
+            "events (eight implementations per tree) are compared with TH by TraceHash.", TB, "5 C22"),
+    "C24": ("hash", "TLC model checking of the intern machine against the declarative meaning + replay + trace validation",
+            "Intern.tla models intern_tree with its maps and states the C24 clauses declaratively; MCHash checks machine = meaning "
+            "on all small heaps with sharing; recorded intern events are checked clause by clause by TraceHash.", TB, "5 C24"),
 }
 
 NOT_YET = "not claimed yet in this round: the specification module / engine for it is still being built (DESIGN.md A.7)"
@@ -20,12 +52,21 @@ NA = {
 }
 
 ENGINES = {
-    "varint": ("spec/Varint.tla spec/MCVarint.tla spec/TraceVarint.tla harness/src/bin/varint.rs engines/varint.py", "TLA+ codec spec, TLC MC + S->I replay + I->S trace validation"),
+    "run": ("spec/Interp.tla spec/Ops.tla spec/Sexp.tla spec/TraceRun.tla harness/src/bin/run.rs engines/run.py", "run_program machine in TLA+, TLC trace validation of recorded runs and variant relations"),
+    "ops": ("spec/Ops.tla spec/TraceOps.tla harness/src/bin/ops.rs engines/ops.py", "operators in TLA+, direct operator calls validated by TLC"),
+    "alloc": ("spec/Alloc.tla spec/AllocMech.tla spec/MCAlloc.tla spec/TraceAlloc.tla harness/src/bin/alloc.rs engines/alloc.py", "allocator property model + mechanism refinement, replay and trace validation"),
+    "serde": ("spec/SerClassic.tla spec/MCSerClassic.tla spec/TraceSerClassic.tla harness/src/bin/serde.rs engines/serde.py", "classic serialization"),
+    "serdebr": ("spec/SerBackrefs.tla spec/MCSerBackrefs.tla spec/TraceSerBackrefs.tla harness/src/bin/serdebr.rs engines/serdebr.py", "back-reference serialization"),
+    "incremental": ("spec/Incremental.tla spec/IncrementalMech.tla spec/MCIncremental.tla spec/TraceIncremental.tla harness/src/bin/incser.rs engines/incremental.py", "incremental serializer histories"),
+    "serde2026": ("spec/Ser2026.tla spec/MCSer2026.tla spec/TraceSer2026.tla harness/src/bin/serde2026.rs engines/serde2026.py", "serde_2026 format"),
+    "varint": ("spec/Varint.tla spec/MCVarint.tla spec/TraceVarint.tla harness/src/bin/varint.rs engines/varint.py", "varint codec"),
+    "hash": ("spec/TreeHash.tla spec/Intern.tla spec/MCHash.tla spec/TraceHash.tla harness/src/bin/hash.rs engines/hash.py", "tree hashing and interning"),
+    "py": ("pyharness/ engines/py.py", "Python wheel"),
 }
 
 
 def main():
-    props = [json.loads(l)["id"] for l in open(os.path.join(os.path.dirname(__file__), "..", "properties.jsonl"))]
+    props = [json.loads(l)["id"] for l in open(os.path.join(HERE, "..", "properties.jsonl"))]
     checks = []
     for pid in props:
         if pid in CLAIMED:
@@ -37,26 +78,31 @@ def main():
                 "evidence_file": "/verif/evidence/%s.json" % pid,
                 "replay_cmd_template": "./check.py replay {path}",
                 "engine": eng,
-                "level_claimed": {"category": "model_checking", "text": text, "design_ref": ref},
+                "level_claimed": {"category": "model_checking", "text": text, "design_ref": "DESIGN.md section " + ref},
                 "level_note": note,
                 "technique": tech,
             })
-    na = []
-    for pid in props:
-        if pid not in CLAIMED:
-            na.append({"property_id": pid, "reason": NA.get(pid, NOT_YET)})
+    na = [{"property_id": pid, "reason": NA.get(pid, NOT_YET)} for pid in props if pid not in CLAIMED]
     engines = []
     for name, (path, kind) in ENGINES.items():
-        engines.append({"name": name, "path": path, "kind_free_text": kind,
-                        "serves_properties": [p for p in props if p in CLAIMED and CLAIMED[p][0] == name]})
+        serves = [p for p in props if p in CLAIMED and CLAIMED[p][0] == name]
+        if serves:
+            engines.append({"name": name, "path": path, "kind_free_text": kind, "serves_properties": serves})
+    hooks_commits = []
+    try:
+        import subprocess
+        o = subprocess.run(["git", "-C", "/repo", "log", "--format=%H %s"], capture_output=True, text=True).stdout
+        hooks_commits = [l.split()[0] for l in o.splitlines() if l.split(" ", 1)[1].startswith("verif hook")]
+    except Exception:
+        pass
     m = {
         "version": 1,
         "setup_cmd": "./setup.sh",
         "hooks": {
             "guard": "--cfg clvmr_verif",
-            "enable": "RUSTFLAGS in /verif/harness/.cargo/config.toml: --cfg clvmr_verif (the harness has a path dependency on /repo)",
-            "baseline_off_cmd": "cd /repo && cargo nextest run --workspace --no-fail-fast --tool-config-file pb:/w/lib/nextest.toml --profile pb --test-threads 8 --offline || cargo test --workspace --no-fail-fast --offline",
-            "source_commits": [],
+            "enable": "rustflags in /verif/harness/.cargo/config.toml: --cfg clvmr_verif (the harness has a path dependency on /repo)",
+            "baseline_off_cmd": "cd /repo && (cargo nextest run --workspace --no-fail-fast --tool-config-file pb:/w/lib/nextest.toml --profile pb --test-threads 8 --offline || cargo test --workspace --no-fail-fast --offline)",
+            "source_commits": hooks_commits,
             "add_only": True,
         },
         "engines": engines,
@@ -64,7 +110,7 @@ def main():
         "not_applicable": na,
         "notes": "Model-based verification with explicit TLA+ specifications under /verif/spec; see DESIGN.md. Exit 2 = tool error (no verdict).",
     }
-    with open(os.path.join(os.path.dirname(__file__), "..", "MANIFEST.json"), "w") as f:
+    with open(os.path.join(HERE, "..", "MANIFEST.json"), "w") as f:
         json.dump(m, f, indent=1)
     print("MANIFEST.json: %d checks, %d not_applicable" % (len(checks), len(na)))
 
